@@ -6,6 +6,7 @@ bounds.  Helper lemmas live in `Lemmas/C16.lean` (bookkeeping over ℚ) and `Ana
 import GemseoVerif.Lemmas.C16
 import GemseoVerif.Lemmas.C16Complex
 import GemseoVerif.Lemmas.C16Hist
+import GemseoVerif.Lemmas.C16Defaults
 import GemseoVerif.Analysis.C16
 import GemseoVerif.Analysis.C16Complex
 import Mathlib.Data.Rat.Cast.Order
@@ -1160,6 +1161,59 @@ example :
       = some [[[1]], [[6 + 3/4, 0]]] ∧
     (JacApprox.run .fd false D ⟨.scalar (1/2), none⟩ ops).2 = [some [[[6]], [[18, 9]]], none] ∧
     (compsOf D.inSizes [1, 0]).Nodup ∧ (∀ g ∈ compsOf D.inSizes [1, 0], g < 3) := by
+  decide +kernel
+
+/-! ### The default inputs of the discipline: requests that leave inputs to their default values, after other requests
+
+`linearize(input_data)` / `check_jacobian(input_data, auto_set_step=…)` complete the passed input data with the
+default inputs; an approximation temporarily overwrites the defaults of the inputs that are not differentiated
+(`__hold_other_inputs`); `auto_set_step` executes the discipline elsewhere before the requested point is set. -/
+
+/-- `__hold_other_inputs` leaves the default inputs as they were, for any local data and any differentiated
+    components. -/
+theorem hold_restores_defaults (defaults data : Vec) (fic : List Nat) :
+    holdExit (holdEnter defaults data (heldOf defaults.length fic)) defaults (heldOf defaults.length fic) = defaults :=
+  holdExit_holdEnter _ _ _ (fun _ hg => ((mem_heldOf _ _ _).mp hg).1)
+
+/-- Inside the context, the adapter — which completes its argument with the default inputs in force — evaluates the
+    discipline at the CURRENT data with the differentiated components replaced by its argument: this is the function
+    `reqFun` of every `request_*` theorem above. -/
+theorem held_inputs_keep_current_values (D : Disc) (defaults data : Vec) (fic foc : List Nat) (v : Vec)
+    (hl : data.length = defaults.length) (hv : fic.length ≤ v.length) :
+    pick foc (D.f (overwriteL (holdEnter defaults data (heldOf defaults.length fic)) fic v)) =
+      reqFun D.f data fic foc v := by
+  rw [hold_gives_current_point defaults data fic v hl hv]; rfl
+
+/-- After any history of executions, approximations and `auto_set_step` calls the default inputs of the discipline
+    are the ones it was built with. -/
+theorem defaults_unchanged_by_any_history (sch : Scheme) (par : Bool) (D : Disc) (s : Step) (st : DState)
+    (ops : List DOp) : (DState.run sch par D s st ops).1.defaults = st.defaults :=
+  drun_defaults sch par D s st ops
+
+/-- The point of a request: after ANY history (requests at other points, with other differentiated inputs,
+    `auto_set_step` calls), `linearize(input_data)` and the reference Jacobian of
+    `check_jacobian(input_data, auto_set_step=auto)` are the blocks of a fresh discipline at the passed values
+    completed by the ORIGINAL default inputs — wherever `auto_set_step` left the local data.  With
+    `request_block_entry_fd/cd/cs` every entry is the scheme's quotient at that point. -/
+theorem request_point_is_input_data_completed_by_defaults (sch : Scheme) (par : Bool) (D : Disc) (s : Step)
+    (st : DState) (ops : List DOp) (auto : Bool) (last : Vec) (given : List Nat) (v : Vec) (r : Request) :
+    (DState.run sch par D s st (ops ++ checkOps auto last given v r)).2.getLast? =
+      some (if reqValid D s r then some (reqBlocks sch par D (complete st.defaults given v) s r) else none) := by
+  rw [drun_append]
+  cases auto <;>
+    simp [checkOps, linearizeOps, DState.run, DState.op, drun_defaults]
+
+/-- Non-vacuity: `y = x0²·x1`, default inputs `(1, 2)`, forward differences with step 1/4.  First `dy/dx0` at
+    `(3, 7)` (`x1` away from its default value), then `check_jacobian({x0: 5}, auto_set_step=True)`:
+    the reference is `dy/dx0` at `(5, 2)` (`= 20 + 1/2`), not at `(5, 7)`, and not where `auto_set_step` left the data;
+    the defaults are `(1, 2)` afterwards.  An exit that re-installed the updated mapping (aliased "saved" defaults)
+    would leave `(1, 7)`. -/
+example :
+    let D : Disc := ⟨[1, 1], [1], polyFun [[⟨1, [2, 1]⟩]], polyFunG [[⟨1, [2, 1]⟩]]⟩
+    let ops := linearizeOps [0, 1] [3, 7] ⟨[0], [0], []⟩
+    let res := DState.run .fd false D (.scalar (1/4)) ⟨[1, 2], [1, 2]⟩ (ops ++ checkOps true [9, 9] [0] [5, 99] ⟨[0], [0], []⟩)
+    res.2 = [none, some [[[42 + 7/4]]], none, none, some [[[20 + 1/2]]]] ∧ res.1.defaults = [1, 2] ∧
+    holdEnter [1, 2] [3, 7] (heldOf 2 [0]) = [1, 7] := by
   decide +kernel
 
 end GV.C16
